@@ -384,7 +384,10 @@ def check_invariants(repo, model: FsmModel, rep, only_timer_rule=None):
                 p_timer.append('%s(): ARTIM %s on entering Sta%d (running before: %s)'
                                % (meth, 'running' if post_timer else 'not running', nxt, pre_timer))
             post_sock = o.sock_after == 'present'
-            if post_sock != (nxt not in ps3_8.NO_TRANSPORT_STATES):
+            # (a transport the provider gave up on the action's behalf -- a write failed -- with "transport connection closed"
+            # queued: the state is left again as soon as Evt17 is taken off the queue)
+            evt17_queued = any(e_[0] == 'queue' and str(e_[1]).endswith('EVT_17') for e_ in o.effects)
+            if post_sock != (nxt not in ps3_8.NO_TRANSPORT_STATES) and not (not post_sock and evt17_queued):
                 p_sock.append('%s(): transport %s on entering Sta%d' % (meth, o.sock_after, nxt))
             if 'P-DATA-TF' in summ['send'] and s not in (6, 8):
                 p_pdata.append('%s(): P-DATA-TF sent in Sta%d' % (meth, s))
